@@ -96,16 +96,16 @@ class AbstractBFGS(AbstractMLE):
         )
 
         try:
-            search_internal_dict = self.paths.load_search_internal()
+            search_internal = self.paths.load_search_internal()
 
-            x0 = search_internal_dict["x0"]
-            total_iterations = search_internal_dict["total_iterations"]
+            x0 = search_internal.x
+            total_iterations = search_internal.nit
 
             self.logger.info(
                 "Resuming LBFGS non-linear search (previous samples found)."
             )
 
-        except (FileNotFoundError, TypeError):
+        except (FileNotFoundError, TypeError, AttributeError):
 
             (
                 unit_parameter_lists,
